@@ -56,6 +56,7 @@ type E7Spec struct {
 	Shadow        []FuncRuleSpec     `json:"shadowed_result"`
 	Forbidden     []ForbiddenSpec    `json:"forbidden_calls"`
 	CrossAppend   []FuncRuleSpec     `json:"cross_append"`
+	NestedModel   []NestedModelSpec  `json:"nested_model"`
 }
 
 type FuncRuleSpec struct {
@@ -208,6 +209,9 @@ func runE7(p *Program, sp *Spec, c *Collector) {
 	}
 	for _, ca := range t.CrossAppend {
 		runCrossAppend(p, c, ca)
+	}
+	for _, nm := range t.NestedModel {
+		runNestedModel(p, c, nm)
 	}
 	for _, n := range t.NoExit {
 		runNoExit(p, sp, c, n)
@@ -2237,6 +2241,93 @@ func runDottedSuffix(p *Program, c *Collector, a FuncRuleSpec) {
 	if n == 0 {
 		c.Ob(a.Props, "E7.dotted-suffix", "dottedsuffix:"+strings.Join(a.Funcs, ","), Undecided, a.What+": no suffix lookup found (anchor lost)", "", false)
 	}
+	// exact before fuzzy: within one function, a first-match search "some project class whose name ends in .X" must not come
+	// before the exact lookup "<current package>.X" for the same X: the class of the own package would lose to a same-named class
+	// of any other package that happens to stand earlier in the list.
+	for _, fn := range expandFuncs(p, c, a.Funcs, a.Props...) {
+		if fn.Parent() != nil {
+			continue
+		}
+		sf := newSymFn(p, fn, 0)
+		type site struct {
+			in   ssa.Instruction
+			name string
+		}
+		var fuzzy, exact []site
+		for _, b := range fn.Blocks {
+			for _, in := range b.Instrs {
+				switch x := in.(type) {
+				case *ssa.Call:
+					callee := x.Call.StaticCallee()
+					if callee == nil || fullFuncName(callee) != "strings.HasSuffix" {
+						continue
+					}
+					full := sf.val(x.Call.Args[0])
+					if full.Op != "elem" || binderColls[full.Name] == nil || binderColls[full.Name].Op != "global" {
+						continue
+					}
+					exempt := false
+					for _, ex := range a.Escape {
+						// lists whose entries rightly win over the own package (the file's explicit imports)
+						if binderColls[full.Name].Name == ex {
+							exempt = true
+						}
+					}
+					if exempt {
+						continue
+					}
+					suf := sf.val(x.Call.Args[1])
+					if suf.Op == "bin" && suf.Name == "+" && len(suf.Kids) == 2 {
+						if str, isC := symStr(suf.Kids[0]); isC && str == "." {
+							fuzzy = append(fuzzy, site{in, suf.Kids[1].String()})
+						}
+					}
+				case *ssa.Lookup:
+					if loadedGlobal(x.X) == nil {
+						continue
+					}
+					k := sf.val(x.Index)
+					// <package variable> + "." + X
+					if k.Op == "bin" && k.Name == "+" && len(k.Kids) == 2 && k.Kids[0].Op == "bin" && k.Kids[0].Name == "+" {
+						if str, isC := symStr(k.Kids[0].Kids[1]); isC && str == "." && strings.HasPrefix(k.Kids[0].Kids[0].String(), "global(") {
+							exact = append(exact, site{in, k.Kids[1].String()})
+						}
+					}
+				}
+			}
+		}
+		for _, e := range exact {
+			for _, f := range fuzzy {
+				// the fuzzy search is about (a cleaned form of) the same name and executes before the exact lookup
+				if !strings.Contains(f.name, e.name) && !strings.Contains(e.name, f.name) {
+					continue
+				}
+				if f.in.Block() == e.in.Block() || !f.in.Block().Dominates(e.in.Block()) && !reaches(f.in.Block(), e.in.Block()) {
+					continue
+				}
+				if reaches(e.in.Block(), f.in.Block()) {
+					continue // the exact lookup can come first
+				}
+				// another exact lookup of the same name already stands in front of the search
+				covered := false
+				for _, e2 := range exact {
+					if e2.in != e.in && (strings.Contains(f.name, e2.name) || strings.Contains(e2.name, f.name)) && e2.in.Block() != f.in.Block() && reaches(e2.in.Block(), f.in.Block()) {
+						covered = true
+					}
+				}
+				if covered {
+					continue
+				}
+				key := "exactfirst:" + p.FuncKey(fn)
+				c.Ob(a.Props, "E7.exact-before-fuzzy", key, Violated, a.What+": "+shortFn(p.FuncKey(fn))+" first takes any project class whose name ends in ."+clip(f.name, 40)+" ("+p.InstrPos(f.in)+") and only afterwards looks up the class of the current package under its exact name ("+p.InstrPos(e.in)+"): a same-named class of another package that stands earlier in the list wins over the own package's class", p.InstrPos(f.in), false)
+				goto next
+			}
+		}
+		if len(exact) > 0 && len(fuzzy) > 0 {
+			c.Ob(a.Props, "E7.exact-before-fuzzy", "exactfirst:"+p.FuncKey(fn), Discharged, "the exact same-package lookup precedes the search by suffix", p.FuncPos(fn), true)
+		}
+	next:
+	}
 }
 
 // ---------------------------------------------------------------------------------------------
@@ -3678,6 +3769,106 @@ func runCrossAppend(p *Program, c *Collector, a FuncRuleSpec) {
 			c.Ob(a.Props, "E7.cross-append", key, Violated, a.What+": "+what+": the list of one record is grown and filed under another, whose own entries are replaced", p.InstrPos(bad), false)
 		} else if !strings.Contains(fn.Name(), "$") {
 			c.Ob(a.Props, "E7.cross-append", key, Discharged, "every append is stored back into the list it extends", p.FuncPos(fn), true)
+		}
+	}
+}
+
+// ---------------------------------------------------------------------------------------------
+// nested model: the code model files a member type under its enclosing type (CodeDataStruct.InnerStructures) and nowhere
+// else. A report builder that walks a list of types and reads their methods, calls or fields, but never looks at
+// InnerStructures (neither itself nor in a helper it calls), leaves out everything declared in member types.
+type NestedModelSpec struct {
+	Props   []string `json:"props"`
+	Funcs   []string `json:"funcs"`
+	Type    string   `json:"type"`    // "<rel pkg>.<struct>"
+	Reads   []string `json:"reads"`   // fields whose reading makes a function a consumer of the model
+	Partner string   `json:"partner"` // the field that holds the nested records
+	What    string   `json:"what"`
+}
+
+func runNestedModel(p *Program, c *Collector, nm NestedModelSpec) {
+	isField := func(in ssa.Instruction, names map[string]bool) bool {
+		var t types.Type
+		var idx int
+		switch x := in.(type) {
+		case *ssa.FieldAddr:
+			t, idx = x.X.Type(), x.Field
+		case *ssa.Field:
+			t, idx = x.X.Type(), x.Field
+		default:
+			return false
+		}
+		full := fieldFullName(t, idx)
+		for n := range names {
+			if full == nm.Type+"."+n {
+				return true
+			}
+		}
+		return false
+	}
+	reads := map[string]bool{}
+	for _, r := range nm.Reads {
+		reads[r] = true
+	}
+	partner := map[string]bool{nm.Partner: true}
+	var touches func(fn *ssa.Function, names map[string]bool, depth int, seen map[*ssa.Function]bool) bool
+	touches = func(fn *ssa.Function, names map[string]bool, depth int, seen map[*ssa.Function]bool) bool {
+		if fn == nil || seen[fn] || depth > 2 {
+			return false
+		}
+		seen[fn] = true
+		for _, f := range append([]*ssa.Function{fn}, allAnon(fn)...) {
+			for _, b := range f.Blocks {
+				for _, in := range b.Instrs {
+					if isField(in, names) {
+						return true
+					}
+					if call, ok := in.(ssa.CallInstruction); ok {
+						for _, callee := range p.ownCallees(call) {
+							if touches(callee, names, depth+1, seen) {
+								return true
+							}
+						}
+					}
+				}
+			}
+		}
+		return false
+	}
+	for _, fn := range expandFuncs(p, c, nm.Funcs, nm.Props...) {
+		if fn.Parent() != nil || len(fn.Blocks) == 0 {
+			continue
+		}
+		// a consumer: takes (or ranges over) a list of the model type and reads one of the fields itself
+		takesList := false
+		for _, prm := range fn.Params {
+			if sl, ok := prm.Type().Underlying().(*types.Slice); ok {
+				if pk, n := namedTypeName(sl.Elem()); rel(pk)+"."+n == nm.Type {
+					takesList = true
+				}
+			}
+		}
+		if !takesList {
+			continue
+		}
+		direct := false
+		for _, f := range append([]*ssa.Function{fn}, allAnon(fn)...) {
+			for _, b := range f.Blocks {
+				for _, in := range b.Instrs {
+					if isField(in, reads) {
+						direct = true
+					}
+				}
+			}
+		}
+		if !direct {
+			continue
+		}
+		key := "nestedmodel:" + p.FuncKey(fn)
+		if touches(fn, partner, 0, map[*ssa.Function]bool{}) {
+			c.Ob(nm.Props, "E7.nested-model", key, Discharged, shortFn(p.FuncKey(fn))+" also visits "+nm.Partner, p.FuncPos(fn), true)
+		} else {
+			c.Ob(nm.Props, "E7.nested-model", key, Violated, nm.What+": "+shortFn(p.FuncKey(fn))+" walks a list of types and reads their "+strings.Join(nm.Reads, "/")+", but neither it nor a helper it calls ever looks at "+nm.Partner+": what member types declare and call is left out", p.FuncPos(fn), false)
 		}
 	}
 }
